@@ -195,6 +195,8 @@ BodyItem(t) ==
     [] t.k = "use" -> <<BItem("use", t.n, t.a, <<>>, t.g)>>
     [] t.k = "pos" -> <<BItem("pos", t.n, <<>>, <<>>, t.g)>>
     [] t.k = "gap" -> <<BItem("gap", "", <<>>, <<>>, FALSE)>>
+    [] t.k = "def" -> <<[BItem("def", t.n, <<>>, <<"`", "define", t.n>> \o [i \in 1..Len(t.a) |-> t.a[i].n], FALSE)
+                          EXCEPT !.b = <<[src |-> t.s, toks |-> t.a, boff |-> 0]>>]>>      \* object-like `define NAME body, ends its line
     [] t.k = "undef" -> <<BItem("undef", t.n, <<>>, <<"`", "undef", t.n>>, FALSE)>>        \* directives inside a body are executed
     [] t.k = "undefall" -> <<BItem("undefall", "", <<>>, <<"`", "undefineall">>, FALSE)>>  \* when the expansion is rescanned
     [] t.k = "cmt" -> <<BItem("cmt", t.n, <<>>, <<t.n>>, t.g)>>     \* a block comment inside a body is part of the expansion
@@ -235,6 +237,7 @@ ExpandUse(st, fr, u) ==
                      paren == IF d.a = <<>> /\ u.a # <<>> THEN ParenToks(u.a[1]) ELSE <<>>
                      tag   == IF fr.org # NoTag THEN fr.org   \* bytes of a nested expansion belong to the outermost usage
                               ELSE IF d.file = "" THEN Tag("syn", "", 0)
+                              ELSE IF d.file = "?" THEN Tag("any", "", 0)
                               ELSE Tag("exp", d.file, d.off)
                  IN [ok |-> TRUE, err |-> <<>>, items |-> BodyItems(body \o paren), tag |-> tag, none |-> FALSE]
 
@@ -385,7 +388,8 @@ StepInclude(st, env, fr, it) ==
 
 StepDefine(st, fr, it) ==
   LET e == [n |-> it.n, none |-> FALSE, f |-> it.f, a |-> it.a, b |-> it.b,
-            file |-> IF fr.org = NoTag THEN fr.file ELSE "",
+            \* "?" = defined inside an expansion: the property fixes no origin for what such a macro expands to
+            file |-> IF fr.org = NoTag THEN fr.file ELSE "?",
             off |-> IF it.b = <<>> THEN 0 ELSE it.off + it.b[1].boff]
       st2 == IF it.n \in Predefined THEN st ELSE [st EXCEPT !.defs = DefSet(@, e)]
   IN Advance(EmitItem(st2, it))       \* the directive itself is kept in the output
